@@ -1,5 +1,6 @@
 import RedisVerif.Props.C06AE
 import RedisVerif.Lemmas.SimLww
+import RedisVerif.Lemmas.SimServed
 
 /-!
 # C06 over the simulator cluster — loss, delay, partitions that heal, anti-entropy
@@ -76,6 +77,41 @@ theorem sim_winner_is_max_stamp (H : AE.Hasher) (cfg : Cfg) (n : Nat) (causal : 
   rw [hiss]
   rw [h] at hk hd hsi ⊢
   exact winner_is_max_stamp_ae n causal es k S hk hd i hiS nd.ps.sh hsi v hv
+
+/-- **C06 for the simulator cluster, second half (a replica serves what its replication state
+    says)**: after every history, on every node, for every key: `GET` on the node's executor
+    returns exactly the live value of its replication state (nothing for a tombstone or an unknown
+    key) — `execute` records what it executes, `apply_remote_deltas` writes the merged value through. -/
+theorem sim_served_equals_replicated (H : AE.Hasher) (cfg : Cfg) (n : Nat) (causal : Bool)
+    (routers : List (Option Gossip.Router)) (autoAE : Bool) (evs : List SEv) (i : Nat) (nd : SNode)
+    (hnd : ((Sim.init n causal routers autoAE).run H cfg evs).nodes[i]? = some nd) (k : Nat) :
+    NMap.get nd.kv k = (NMap.get nd.ps.sh.keys k).bind RV.get :=
+  ((servedInv_run H cfg evs _ (servedInv_init n causal routers autoAE)).node nd (List.mem_of_getElem? hnd)).served k
+
+/-- … hence replicas whose replication states agree on a key answer `GET` alike -/
+theorem sim_reads_agree_of_agree (H : AE.Hasher) (cfg : Cfg) (n : Nat) (causal : Bool)
+    (routers : List (Option Gossip.Router)) (autoAE : Bool) (evs : List SEv) (i j : Nat) (ni nj : SNode)
+    (hi : ((Sim.init n causal routers autoAE).run H cfg evs).nodes[i]? = some ni)
+    (hj : ((Sim.init n causal routers autoAE).run H cfg evs).nodes[j]? = some nj) (k : Nat)
+    (h : (NMap.get ni.ps.sh.keys k).map RV.strip = (NMap.get nj.ps.sh.keys k).map RV.strip) :
+    NMap.get ni.kv k = NMap.get nj.kv k := by
+  rw [sim_served_equals_replicated H cfg n causal routers autoAE evs i ni hi k,
+    sim_served_equals_replicated H cfg n causal routers autoAE evs j nj hj k]
+  cases ha : NMap.get ni.ps.sh.keys k with
+  | none =>
+    cases hb : NMap.get nj.ps.sh.keys k with
+    | none => rfl
+    | some y => rw [ha, hb] at h; cases h
+  | some x =>
+    cases hb : NMap.get nj.ps.sh.keys k with
+    | none => rw [ha, hb] at h; cases h
+    | some y =>
+      rw [ha, hb] at h
+      simp only [Option.map_some, Option.some.injEq] at h
+      have : x.crdt = y.crdt := by
+        have := congrArg RV.crdt h
+        simpa [RV.strip] using this
+      simp [RV.get, this]
 
 /-! ## witnesses (kernel-evaluated with a toy hasher; the driver runs the model with SipHash) -/
 
